@@ -34,8 +34,8 @@ type c04Case struct {
 	// dispatch loop with a handler per kind; "muxrestart" = the same loop cancelled and started again every few
 	// hundred microseconds (an envelope is either handled or still in its stream)
 	Consumer  string `json:"consumer,omitempty"`
-	Impatient bool  `json:"impatient,omitempty"`
-	Attempts  []int `json:"attempts,omitempty"` // per sender: sends attempted
+	Impatient bool   `json:"impatient,omitempty"`
+	Attempts  []int  `json:"attempts,omitempty"` // per sender: sends attempted
 }
 
 func (c *c04Case) Coq() string {
